@@ -13,19 +13,21 @@ CHECKS = {
          "bounded-exhaustive + property-based testing against an interval-arithmetic oracle", "DESIGN.md §5 C13"),
 }
 NOT_YET = {}
+THOROUGH = {}
 import os
 extra = os.path.join(os.path.dirname(__file__), "manifest_extra.json")
 if os.path.exists(extra):
     e = json.load(open(extra))
     CHECKS.update({k: tuple(v) for k, v in e.get("checks", {}).items()})
     NOT_YET.update(e.get("not_applicable", {}))
+    THOROUGH.update(e.get("thorough_cmd", {}))
 checks = []
 for pid in sorted(CHECKS):
     text, note, tech, ref = CHECKS[pid]
     checks.append({
         "property_id": pid,
         "quick_cmd": f"scripts/check.sh {pid} --tier quick",
-        "thorough_cmd": f"scripts/check.sh {pid} --tier thorough",
+        "thorough_cmd": THOROUGH.get(pid, f"scripts/check.sh {pid} --tier thorough"),
         "evidence_file": f"evidence/{pid}.json",
         "replay_cmd_template": f"scripts/check.sh {pid} --replay {{path}}",
         "engine": "stamverif",
